@@ -244,7 +244,7 @@ def _sweep_plan():
         rel = []
         for _name, text in SWEEP_DOCS:
             r = engine.ALONE.parse(text, {"c": "tm", "d": "en"}, "ast", False, "text")
-            rel.append(r["toks"] + 2)  # start yield + one yield per token read, +1 for the final release
+            rel.append(r["gates"] + 2)  # start yield + one yield per gate (token read), +1 for the final release
         plan, total = [], 0
         for a in range(len(SWEEP_DOCS)):
             for b in range(len(SWEEP_DOCS)):
